@@ -9,5 +9,6 @@ def run(tier, seed):
     import tlsextra
     tlsextra.handshake_timer_cases(res)
     tlsextra.silent_after_handshake_cases(res)
-    res.rule += " and a peer that goes silent after the handshake (nothing / partial line / partial upload body) and never answers close_notify"
+    tlsextra.complete_request_in_records_cases(res)
+    res.rule += " and a peer that goes silent after the handshake (nothing / partial line / partial upload body) and never answers close_notify; and a complete request arriving as several TLS records in one TCP read (answered, no timer left)"
     return res
